@@ -81,6 +81,31 @@ def _stage(name):
         _T0[0] = now
 
 
+# tie -> (case type, check function, model applied to the case `c`)
+TIE_MODEL = {
+    'walk': ('list (nat * nat) * nat * res (list (nat * nat))', 'check_walk',
+             'hex_vertices_abs (adjb_of (fst (fst c))) (snd (fst c))'),
+    'base': ('list fsurf * res (list fvec)', 'check_base',
+             'hexLatticeBaseVectors FS (fst c)'),
+    'vertices': ('list fsurf * nat * res (list fvec * fvec)',
+                 'check_vertices',
+                 'hexVertices FS (fst (fst c)) (snd (fst c))'),
+    'sort': ('list fsurf * res (adjacency fline)', 'check_sort',
+             'hexSortSides FS (fst c)'),
+    'adj': ('fplane * fplane * fsurf * fsurf * res (option fline)',
+            'check_adj',
+            'areHexSidesAdjacent FS (fst (fst (fst (fst c)))) '
+            '(snd (fst (fst (fst c)))) (snd (fst (fst c))) (snd (fst c))'),
+    'inter': ('fplane * fplane * res fline', 'check_inter',
+              'pointInPlaneIntersection FS (fst (fst c)) (snd (fst c))'),
+    'side': ('fvec * fplane * Z', 'check_side',
+             'planeSide FS (fst (fst c)) (snd (fst c))'),
+    'proj': ('fvec * fplane * fvec * res fvec', 'check_proj',
+             'projectPointOnPlane FS (fst (fst (fst c))) (snd (fst (fst c))) '
+             '(snd (fst c))'),
+}
+EVAL_HEADER = HEADER + 'Import ListNotations.\n'
+
 # ---- running the implementation -------------------------------------------
 
 class Hang(Exception):
@@ -931,11 +956,21 @@ def replay(path):
         else:
             print('implementation:', guarded(LT.hexLatticeBaseVectors, surfs))
             term = f'hexLatticeBaseVectors FS {clist(csurf(s) for s in surfs)}'
-        model, _ = common.coq_eval(HEADER, term)
+        model, _ = common.coq_eval(EVAL_HEADER, term)
         print('model:', model)
         print('expected:', data.get('expected'))
     elif 'args' in inp:
-        print('tie', inp.get('tie'), 'arguments:', inp['args'])
-        print('case:', data.get('case'))
+        print('tie', inp.get('tie'), 'arguments (implementation side):',
+              inp['args'])
+        print('case (arguments, implementation\'s answer):', data.get('case'))
+        if inp.get('tie') in TIE_MODEL and data.get('case'):
+            ctype, cfun, model = TIE_MODEL[inp['tie']]
+            case = data['case']
+            value, _ = common.coq_eval(
+                EVAL_HEADER, f'let c : {ctype} := {case} in ({model})')
+            print('model:', value)
+            agree, _ = common.coq_eval(
+                EVAL_HEADER, f'let c : {ctype} := {case} in {cfun} c')
+            print('model agrees with the implementation:', agree)
     print('recorded:', data.get('what'))
     return 0
